@@ -4,7 +4,7 @@
    The modelled operations (Model.v, ModelF.v) contain every conversion / wrap modulo 2^w of the C and RecInt types and
    every IEEE rounding explicitly, so "= exact residue" states that no overflow, wrap or rounding is observable. *)
 From Coq Require Import ZArith List.
-From C03 Require Import Model ModelF ModelDK Params ProofsInt ProofsEuclid ProofsIntInv ProofsRU ProofsFM ProofsBI ProofsBarrett ProofsBarrettM ProofsPrecomp ProofsMisc ProofsBF ProofsEX ProofsBN ProofsRnd ProofsEXM ProofsBIQ ProofsDKR ProofsDKQ ProofsDKS ProofsDK ProofsFB ProofsFInv ProofsBIInv ProofsPrecompB ProofsPrecompBS ProofsPrecompBU ProofsTop ProofsTop2 ProofsTop3.
+From C03 Require Import Model ModelF ModelDK Params ProofsInt ProofsEuclid ProofsIntInv ProofsRU ProofsFM ProofsBI ProofsBarrett ProofsBarrettM ProofsPrecomp ProofsMisc ProofsBF ProofsEX ProofsBN ProofsRnd ProofsEXM ProofsBIQ ProofsDKR ProofsDKQ ProofsDKS ProofsDK ProofsFB ProofsFInv ProofsBIInv ProofsGE ProofsPrecompB ProofsPrecompBS ProofsPrecompBU ProofsTop ProofsTop2 ProofsTop3.
 Local Open Scope Z_scope.
 
 (* integral Modular<S,C>: every instantiated (Storage_t, Compute_t) pair, every p in [minCardinality, maxCardinality] *)
@@ -224,3 +224,24 @@ Print Assumptions C03_shoup_quotient_within_one.
    (a*b) mod p for all 16 (width, signedness, compute width) cases inside the asserted precondition bitsize(p) <= 4*sizeof(Compute_t) - 1 *)
 Theorem C03_mul_precomp_b_exact : forall sb sg cb p, Mulpb_stmt sb sg cb p.   Proof. exact mulpb_exact. Qed.
 Print Assumptions C03_mul_precomp_b_exact.
+
+(* the UPPER comparison of the last correction of ModularExtended::reduce and ::mul must be `>=`: the value it receives is EXACTLY p
+   when the argument / product is an exact non-zero multiple of p and the cached reciprocal fl(1/p) is rounded downwards (seeded
+   change C03-m8 replaced it by `>`): witnesses p = 49 (double), 41 / 55 (float), FMA and Dekker branch, raw value = p, `>` variant wrong *)
+Theorem C03_extended_reduce_fma_upper_comparison_must_be_ge :
+  GE_needed_reduce 53 1125899906842623 ex_reduce_raw ex_reduce_gt /\ GE_needed_reduce 24 2097151 ex_reduce_raw ex_reduce_gt.
+Proof. exact (conj ge_needed_reduce_fma_double ge_needed_reduce_fma_float). Qed.
+Print Assumptions C03_extended_reduce_fma_upper_comparison_must_be_ge.
+Theorem C03_extended_reduce_dekker_upper_comparison_must_be_ge :
+  GE_needed_reduce 53 1125899906842623 dk_reduce_raw dk_reduce_gt /\ GE_needed_reduce 24 2097151 dk_reduce_raw dk_reduce_gt.
+Proof. exact (conj ge_needed_reduce_dekker_double ge_needed_reduce_dekker_float). Qed.
+Print Assumptions C03_extended_reduce_dekker_upper_comparison_must_be_ge.
+Theorem C03_extended_mul_upper_comparison_must_be_ge :
+  GE_needed_mul 53 1125899906842623 ex_mul_raw ex_mul_gt /\ GE_needed_mul 24 2097151 ex_mul_raw ex_mul_gt /\
+  GE_needed_mul 53 1125899906842623 dk_mul_raw dk_mul_gt /\ GE_needed_mul 24 2097151 dk_mul_raw dk_mul_gt.
+Proof. exact (conj ge_needed_mul_fma_double (conj ge_needed_mul_fma_float (conj ge_needed_mul_dekker_double ge_needed_mul_dekker_float))). Qed.
+Print Assumptions C03_extended_mul_upper_comparison_must_be_ge.
+(* in the fallback branch (fmod) the remainder is strictly inside (-p, p): `>=` and `>` agree there, the comparison is not critical *)
+Theorem C03_extended_reduce_fallback_comparison_not_critical : forall pe mx p, FB_gt_same_stmt pe mx p.
+Proof. exact fb_gt_same. Qed.
+Print Assumptions C03_extended_reduce_fallback_comparison_not_critical.
